@@ -163,7 +163,7 @@ def run_plugin_history(hist, trace_id, keep_state=True):
         elif kind == "hook":
             event = {"ev": "hook", "stype": step[1], "sname": step[2]}
             try:
-                result = rig.script_hook(step[1], step[2])
+                result = rig.script_hook(step[1], step[2], bool(step[3]) if len(step) > 3 else False)
                 if result is None:
                     res, out = "none", []
                 else:
